@@ -1148,3 +1148,7 @@ mod test {
         }
     }
 }
+
+#[cfg(all(aws_s2n_quic_verif, test))]
+#[path = "/verif/harness/core/rtt.rs"]
+mod verif;
